@@ -71,6 +71,11 @@ def run_case(ctx, case):
     # sequence call: one point per node in order
     if inside:
         ins_impl = [ui for ue, ui in zip(us, usi) if U[0] <= ue <= U[-1]]
+        # the nodes of a sequence call come in no particular order
+        order = list(range(len(inside)))
+        ctx["rng"].shuffle(order)
+        inside = [inside[i] for i in order]
+        ins_impl = [ins_impl[i] for i in order]
         r = impl(lambda: curve(ins_impl))
         mm = drv.call("curve.eval", *curve_args(U, P, W), inside)
         if r[0] != "ok":
